@@ -622,7 +622,9 @@ static void run_seq(void)
 			snprintf(what, sizeof(what), "step %d resize(%#lx)", step, want);
 			if (want > 64 && max_eff > 4096)
 				want = 64;	/* unlimited table: do not really allocate 2^63 buckets */
+			WAIT_BEGIN();			/* qsbr: not "inside a read-side section", as the API requires */
 			cds_lfht_resize(ht, want);	/* must return: hang = livelock / horizon verdict */
+			WAIT_END();
 			exp = want < 1 ? 1 : want;
 			exp = exp > max_eff ? max_eff : exp;
 			while (exp & (exp - 1))
@@ -858,7 +860,9 @@ static void run_op(int tid, int slot, int b)
 		op_walk(-1);
 		break;
 	case K_RESIZE:
+		WAIT_BEGIN();	/* cds_lfht_resize must not be called from a read-side section: a qsbr thread is offline meanwhile */
 		cds_lfht_resize(ht, (unsigned long)arg);
+		WAIT_END();
 		break;
 	case K_COUNT: {
 		long ab, aa;
@@ -1073,7 +1077,7 @@ static void run_conc(void)
 	}
 	ninit = nik;
 	if (vrt_param("init_resize", 0))
-		cds_lfht_resize(ht, (unsigned long)vrt_param("init_resize", 0));
+		{ WAIT_BEGIN(); cds_lfht_resize(ht, (unsigned long)vrt_param("init_resize", 0)); WAIT_END(); }
 	progs[0] = vrt_param("prog0", 0);
 	progs[1] = vrt_param("prog1", 0);
 	progs[2] = vrt_param("prog2", 0);
